@@ -13,7 +13,10 @@ EXPLANATION = (
     "subtraction, some upper bound for addition/multiplication/indexing). Hence no index pair, including |i-j|>1 and i=0, and no chamber number "
     "can make a query panic through its arguments; out-of-range arguments reach the `None` arm. Sites whose operands come from struct fields "
     "(orbit tables) are listed as invariant-justified (axiom A6), not proved. NOT decided: involution, r = orbit length, m = r*v, symmetry, "
-    "agreement between representations, orbit/traversal/orientation semantics (value-level).")
+    "agreement between representations, orbit/traversal/orientation semantics (value-level) - except their range completeness: the derived queries "
+    "(elements, indices, full_traversal, partial_orientation, is_connected, is_complete, is_loopless, is_weakly_oriented, is_oriented, orbit_reps, orbit_reps_2d) "
+    "are checked to range over all indices 0..=dim(), all chambers 1..=size() and every component (T4), a necessary condition for coinciding "
+    "with the graph-theoretic definitions on disconnected inputs.")
 TRUSTED = ["rustc MIR lowering of the dev profile (overflow and bounds asserts present)", "A4 dim(), size() < usize::MAX",
            "A6 struct invariants of the orbit tables (sizes established by collect_orbits and the constructors)",
            "weak criterion: an upper bound on the right value dominates; tightness of the bound is not proved"]
@@ -49,7 +52,71 @@ def run(ctx):
         ints = {i for i in range(1, body.argc + 1) if body.local_ty(i) in INT_TYS}
         n += eng.evaluate_entry(ctx, "T5-range-guard", e, lambda t, ints=ints: t[0] == "param" and t[1] in ints)
     ctx.floor("parameter-origin panic sites in the query scope", n, 20)
+    query_ranges(ctx)
     ctx.notes.append("T5 engine stats: %s" % eng.stats)
+
+
+def query_ranges(ctx):
+    """T4: the derived queries range over all indices, all chambers and all components (necessary for 'coincide with their
+    graph-theoretic definitions' on disconnected and partial inputs)"""
+    g = ctx.facts.getters()
+    ctx.clauses.append("derived queries range over all indices / chambers / components (T4)")
+    D = "dsets::DSet::"
+    def me(b):
+        return ("param", 1, b.debug.get(1, ""))
+    b = ctx.body(D + "elements")
+    ctx.require(ret_origin(b, g) == ("call", "std::ops::RangeInclusive::<Idx>::new", (("int", 1), ("call", D + "size", (me(b),)))), "T4-query-ranges", b.name, "1..=size()", "elements() = 1..=size()", "elements() is " + show(ret_origin(b, g), 1)[:60])
+    b = ctx.body(D + "indices")
+    ctx.require(ret_origin(b, g) == ("call", "std::ops::RangeInclusive::<Idx>::new", (("int", 0), ("call", D + "dim", (me(b),)))), "T4-query-ranges", b.name, "0..=dim()", "indices() = 0..=dim()", "indices() is " + show(ret_origin(b, g), 1)[:60])
+    b = ctx.body(D + "full_traversal")
+    ctx.require(ret_origin(b, g) == ("call", D + "traversal", (me(b), ("call", D + "indices", (me(b),)), ("call", D + "elements", (me(b),)))), "T4-query-ranges", b.name, "traversal(indices(), elements())",
+                "the full traversal uses all indices and all chambers as seeds", "full_traversal() is " + show(ret_origin(b, g), 1)[:80])
+    for fn in ("partial_orientation", "is_connected"):
+        b = ctx.body(D + fn)
+        srcs = [norm(b.def_origin(b.origin(t["args"][0])), g) for bi, t in b.calls("Iterator::next")]
+        full = ("call", D + "full_traversal", (me(b),))
+        alt = ("call", D + "traversal", (me(b), ("call", D + "indices", (me(b),)), ("call", D + "elements", (me(b),))))
+        ok = any(contains(s_, lambda x: x in (full, alt)) for s_ in srcs)
+        ctx.ob("T4-query-ranges", b.name, "iterates full_traversal()", "ok" if ok else "violation",
+               fn + " visits every component (seeds = all chambers)" if ok else
+               fn + " does not iterate the full traversal (all indices, every chamber as seed): chambers outside the visited components are ignored: " + "; ".join(show(s_, 1)[:70] for s_ in srcs))
+    for fn in ("is_complete", "is_loopless", "is_weakly_oriented"):
+        b = ctx.body(D + fn)
+        ctx.scan(ctx.facts.with_closures(b.name))
+        ok_outer = ok_inner = False
+        for bi, t in b.calls("Iterator::all"):
+            r = range_of(b, b.origin(t["args"][0]), g)
+            ok_outer = r is not None and r[0] == ("int", 0) and r[2] and r[1] == ("call", D + "dim", (me(b),))
+            cp = closure_parts(b.origin(t["args"][1]))
+            if cp:
+                cb = ctx.facts.bodies.get(cp[0])
+                for bj, t2 in (cb.calls("Iterator::all") if cb else []):
+                    r2 = range_of(cb, cb.origin(t2["args"][0]), g)
+                    if r2 is not None:
+                        caps = [norm(c, g) for c in cp[1]]
+                        hi = map_term(r2[1], lambda n: caps[int(n[2])] if n[0] == "field" and n[1][0] == "param" and n[1][1] == 1 and str(n[2]).isdigit() and int(n[2]) < len(caps) else None)
+                        ok_inner = r2[0] == ("int", 1) and r2[2] and hi == ("call", D + "size", (me(b),))
+        ctx.ob("T4-query-ranges", b.name, "all indices x all chambers", "ok" if ok_outer and ok_inner else "violation",
+               fn + " quantifies over 0..=dim() and 1..=size()" if ok_outer and ok_inner else fn + " does not quantify over all indices 0..=dim() and all chambers 1..=size() (outer ok: %s, inner ok: %s)" % (ok_outer, ok_inner))
+    b = ctx.body(D + "is_weakly_oriented")
+    r = ret_origin(b, g)
+    ok = contains(r, lambda x: x == ("call", D + "partial_orientation", (me(b),)))
+    ctx.require(ok, "T4-query-ranges", b.name, "uses partial_orientation()", "orientation test uses the sign assignment of partial_orientation()", "is_weakly_oriented does not use partial_orientation(self)")
+    b = ctx.body(D + "is_oriented")
+    calls = sorted(t["callee"].get("def", "") for bi, t in b.calls())
+    ctx.require(calls == [D + "is_loopless", D + "is_weakly_oriented"], "T4-query-ranges", b.name, "is_loopless && is_weakly_oriented", "oriented = loopless and weakly oriented", "is_oriented calls " + str(calls))
+    b = ctx.body(D + "orbit_reps")
+    for bi, t in b.calls("Vec::<T, A>::push"):
+        fa = b.facts_at(bi)
+        okp = any(a[0] == "bool" and a[2] is True and is_call(a[1], "is_none") for a in fa)
+        ctx.require(okp, "T3-orbit-reps", b.name, "push<-i.is_none()", "a representative is recorded exactly for traversal items that start a new component", "orbit_reps records chambers that do not start a component", b.span_of(bi))
+    srcs = [norm(b.def_origin(b.origin(t["args"][0])), g) for bi, t in b.calls("Iterator::next")]
+    okr = any(contains(s_, lambda x: x == ("call", D + "traversal", (me(b), ("param", 2, b.debug.get(2, "")), ("param", 3, b.debug.get(3, ""))))) for s_ in srcs)
+    ctx.require(okr, "T3-orbit-reps", b.name, "traversal(indices, seeds)", "uses the caller's indices and seeds", "orbit_reps does not traverse with the given indices and seeds")
+    b = ctx.body(D + "orbit_reps_2d")
+    srcs = [range_of(b, b.origin(t["args"][0]), g) for bi, t in b.calls("Iterator::next")]
+    okr = any(r is not None and r[0] == ("int", 1) and r[2] and r[1] == ("call", D + "size", (me(b),)) for r in srcs)
+    ctx.require(okr, "T4-query-ranges", b.name, "1..=size()", "every chamber is a candidate representative", "orbit_reps_2d does not scan all chambers 1..=size()")
 
 
 def sweep(ctx):
